@@ -308,9 +308,45 @@ def run_failing_readers(ctx, n):
             ctx.violation("finish was signalled although the source failed", dict(kind=1602, line=line, case=sg.describe(c), heap_limit=hl, fail_at_read=j))
 
 
+def run_failing_source_cli(ctx):
+    """a source that delivers its bytes and then fails (a --pre command printing the file and exiting non-zero, silently or
+    with a message): the failure is reported (status 2, a diagnostic naming the file) and completion is not signalled —
+    no count line under -c, no `end` message under --json"""
+    import subprocess
+    import tempfile
+    runs = 0
+    with tempfile.TemporaryDirectory(dir=vlib.CACHE) as d:
+        f = os.path.join(d, "in.txt")
+        open(f, "wb").write(b"alpha hit\nbeta\nhit again\n")
+        for name, body in (("silent", 'cat "$1"; exit 3'), ("noisy", 'cat "$1"; echo late failure >&2; exit 3')):
+            pre = os.path.join(d, "pre_%s.sh" % name)
+            open(pre, "w").write("#!/bin/sh\n" + body + "\n")
+            os.chmod(pre, 0o755)
+            for mode in ([], ["-c"], ["--json"], ["-j", "2"]):
+                p = subprocess.run([vlib.RG, "--no-config", "--color", "never", "--pre", pre] + mode + ["-e", "hit", f],
+                                   stdin=subprocess.DEVNULL, stdout=subprocess.PIPE, stderr=subprocess.PIPE, timeout=120)
+                runs += 1
+                problems = []
+                if p.returncode != 2:
+                    problems.append("exit status %d, expected 2" % p.returncode)
+                if b"in.txt" not in p.stderr:
+                    problems.append("no diagnostic naming the file")
+                if mode == ["-c"] and p.stdout.strip() != b"":
+                    problems.append("a count was printed although the source failed")
+                if mode == ["--json"] and b'"type":"end"' in p.stdout:
+                    problems.append("completion (an end message) was signalled although the source failed")
+                ctx.note_case("presrc-%s-%s" % (name, " ".join(mode)), True)
+                if problems:
+                    ctx.violation("a source failing after its output (--pre, %s): %s" % (name, "; ".join(problems)),
+                                  dict(kind="cli-failing-source", script=body, mode=mode, status=p.returncode, stdout=repr(p.stdout[:300]),
+                                       stderr=repr(p.stderr[:300])))
+    ctx.cov["cli_failing_source_runs"] = runs
+
+
 def run(ctx):
     rng = ctx.rng
     n = ctx.count(700)
+    run_failing_source_cli(ctx)
     run_closure_sinks(ctx, ctx.count(400))
     run_failing_readers(ctx, ctx.count(300))
     run_read_failures(ctx, n)
